@@ -50,9 +50,9 @@ if _missing or _stale:
     # a class was added to / removed from the library: the zoo must be told (harness error, exit 2)
     raise RuntimeError(f"C07 zoo out of date: classes without driver or NOT_DRIVEN entry {_missing}; unknown classes {_stale}")
 
-RUNS = {"quick": 4860, "thorough": 400_000}       # 81 drivers x 60 seeds
-WALL = {"quick": 40, "thorough": 1500}
-BATCH = {"quick": 30, "thorough": 150}
+RUNS = {"quick": 40 * len(NAMES), "thorough": 400_000}       # 40 seeds per driver on average (>= 20 each, see runs.<Driver>)
+WALL = {"quick": 58, "thorough": 1500}
+BATCH = {"quick": 25, "thorough": 150}
 SELFTEST_RUNS = 24
 SHRINK_BUDGET_S = {"quick": 12.0, "thorough": 60.0}
 SHRINK_SKIP = ("driver", "tags")
@@ -154,4 +154,5 @@ def run(sc):
     return result(sig=sig, msg=msg, digest=out["digest"],
                   nontrivial=driven_subject and out["deliveries"] >= 5,
                   counters=counters, sim_s=out["last_ns"] / 1e9, deliveries=out["deliveries"], klass=d["name"],
-                  state=state, extra={"all_sigs": [s for s, _ in z.violations], "status": out["status"]})
+                  state=state, extra={"all_sigs": [s for s, _ in z.violations], "status": out["status"],
+                                      "max_same_t": out["max_same_t"]})
